@@ -193,9 +193,9 @@ Proof.
   { intros Ho ->. unfold round_end. rewrite Ho. cbn. split; [|lia]. split; [eapply unique_live_mono; eauto|exact S]. }
   assert (Hend : forall f, r_outs r = [f] -> (r_t r <= of_t f)%Z -> round_end r = of_t f).
   { intros f Ho Ht. unfold round_end. rewrite Ho. cbn. lia. }
-  destruct Hcase as [? Ho ?|? ? ? ? ? Ho ?|? ? ? ? ? ? Ho ?|? ? ? ? ? o ? ? ? ? ? Ho ?|src dst m ts y f Hdc o tl Hk Hd Hs Ho Hy Hfr Ht Hts Hov Hh
-                    |? ? ? ? o ? ? Ho ?|src dst m desired f Hdc o Hk Hcl Hmr Hb Ho Hfr Ht ?
-                    |src dst m desired f Hdc o Hk Hcl Hmr Hb Hh Hp Ho Hfr Ht|src dst m desired f t1 Hdc o Hk Hcl Hmr Hb Hh Hp Ho Hfr Ht Hu]; auto.
+  destruct Hcase as [? Ho ?|? ? ? ? ? Ho ?|? ? ? ? ? ? Ho ?|? ? ? ? ? o ? ? ? ? ? Ho ?|src dst m ts y f Hdc o tl Hk Hd Hs Ho Hy Hfr Ht Hdl Hts Hle Hov Hh
+                    |? ? ? ? o ? ? Ho ?|src dst m desired f Hdc o Hk Hcl Hmr Hb Ho Hfr Ht Hdl ?
+                    |src dst m desired f Hdc o Hk Hcl Hmr Hb Hh Hp Ho Hfr Ht Hdl|src dst m desired f t1 Hdc o Hk Hcl Hmr Hb Hh Hp Ho Hfr Ht Hdl Hu]; auto.
   - (* OFFER *)
     rewrite (Hend f Ho Ht). split; [|exact Ht].
     assert (U' : unique_live (of_t f) t) by (eapply unique_live_mono; [|exact U]; lia).
@@ -263,23 +263,40 @@ Proof.
   rewrite app_nil_r. unfold lease_event. cbn [pi_msg pi_opt]. rewrite (pr_msg _ _ _ _ _ _ P), (pr_t _ _ _ _ _ _ P). reflexivity.
 Qed.
 
+Lemma bound_is_own now d t a p e : unique_live now t -> bound_ip now d t = Some a ->
+  nth_error t p = Some e -> e_duid e = d -> live now e = true -> e_ip e = a.
+Proof.
+  intros U Hb Hn Hd Hl. destruct (bound_ip_entry _ _ _ _ Hb) as (p' & e' & (Hn' & Hl') & Hi' & Hd').
+  assert (p = p') by (apply (U (KDuid d) p p' e e'); auto; cbn; apply bytes_eqb_eq; auto). subst p'. congruence.
+Qed.
+
 (* what an accepted round that carries an OFFER or ACK says and does: the single event, and the reservation behind it *)
 Lemma accepted_round_event c now t r t' : cfg_wire_ok c -> wf_round r -> WInv c now t -> (now <= r_t r)%Z -> accept_round c t r = RAcc t' ->
   round_events c r = [] \/
   exists src dst m f ty y, decode_chain (r_pkt r) = Some (src, dst, m) /\ msg_kind c m (decode_options (d_options m)) <> KIgnored /\
     r_outs r = [f] /\ (r_t r <= of_t f)%Z /\ (ty = 2 \/ ty = 5) /\ round_events c r = [lease_event c r m f ty y] /\
     not_others (of_t f) t y (rc_duid c m) /\
-    reserved_in t' y (rc_duid c m) (of_t f + (if (ty =? 2)%N then hold_ns else c_lease c))%Z.
+    reserved_in t' y (rc_duid c m) (of_t f + (if (ty =? 2)%N then hold_ns else c_lease c))%Z /\
+    (* the client's own: a binding of this client that is live when the reply leaves is a binding of this very address *)
+    (forall p e, nth_error t p = Some e -> e_duid e = rc_duid c m -> live (of_t f) e = true -> e_ip e = y).
 Proof.
   intros Hc Hw [U S] Hnow Ha. destruct (accepted_round_cases c t r t' Ha) as [Hcase _].
-  destruct Hcase as [? Ho ?|? ? ? ? ? Ho ?|? ? ? ? ? ? Ho ?|? ? ? ? ? o ? ? ? ? ? Ho ?|src dst m ts y f Hdc o tl Hk Hd Hs Ho Hy Hfr Ht Hts Hov Hh
-                    |? ? ? ? o ? ? Ho ?|src dst m desired f Hdc o Hk Hcl Hmr Hb Ho Hfr Ht ?
-                    |src dst m desired f Hdc o Hk Hcl Hmr Hb Hh Hp Ho Hfr Ht|src dst m desired f t1 Hdc o Hk Hcl Hmr Hb Hh Hp Ho Hfr Ht Hu];
+  destruct Hcase as [? Ho ?|? ? ? ? ? Ho ?|? ? ? ? ? ? Ho ?|? ? ? ? ? o ? ? ? ? ? Ho ?|src dst m ts y f Hdc o tl Hk Hd Hs Ho Hy Hfr Ht Hdl Hts Hle Hov Hh
+                    |? ? ? ? o ? ? Ho ?|src dst m desired f Hdc o Hk Hcl Hmr Hb Ho Hfr Ht Hdl ?
+                    |src dst m desired f Hdc o Hk Hcl Hmr Hb Hh Hp Ho Hfr Ht Hdl|src dst m desired f t1 Hdc o Hk Hcl Hmr Hb Hh Hp Ho Hfr Ht Hdl Hu];
     try (left; apply round_events_silent; assumption); try (left; eapply round_events_nak; eassumption).
   - right. pose proof (hold_to_uip _ _ _ _ _ _ _ Hh) as Eu. destruct (to_uip_bound _ _ _ Eu) as [_ Hbd].
     assert (Hyb : y < 4294967296) by (destruct Hc as (_ & Hc2 & _); lia).
     assert (U' : unique_live (of_t f) t) by (eapply unique_live_mono; [|exact U]; lia).
     destruct (hold_effect _ _ _ _ _ _ _ _ _ Eu U' Hh) as (_ & _ & He). destruct (He eq_refl) as [Hno Hres].
+    assert (Hown : forall p e, nth_error t p = Some e -> e_duid e = rc_duid c m -> live (of_t f) e = true -> e_ip e = y).
+    { intros p e Hn Hdd Hl. assert (Uts : unique_live ts t) by (eapply unique_live_mono; [|exact U]; destruct Hts; subst; lia).
+      assert (Hlts : live ts e = true) by (eapply live_mono; eauto).
+      unfold offer_valid in Hov. destruct (bound_ip ts (rc_duid c m) t) as [a|] eqn:Eb.
+      - apply N.eqb_eq in Hov. subst a. eapply bound_is_own; eauto.
+      - exfalso. unfold bound_ip in Eb. destruct (find_live ts (KDuid (rc_duid c m)) t 0) as [q|] eqn:Ef.
+        + apply find_live_some in Ef as (_ & e0 & Hn0 & _). rewrite Nat.sub_0_r in Hn0. rewrite Hn0 in Eb. discriminate.
+        + rewrite find_live_none_iff in Ef. specialize (Ef p e (conj Hn Hlts)). cbn in Ef. rewrite Hdd, beqb_refl in Ef. discriminate. }
     exists src, dst, m, f, 2, y. repeat split; auto.
     + fold o. rewrite Hk. discriminate.
     + eapply round_events_lease; eauto.
@@ -298,6 +315,8 @@ Proof.
       - split.
         + intros q e' L' Hi'. exfalso. rewrite find_live_none_iff in A. specialize (A q e' L'). cbn in A. apply N.eqb_neq in A. contradiction.
         + exists (length t1). eexists. rewrite nth_error_app2, Nat.sub_diag by lia. cbn. split; [reflexivity|]. cbn. repeat split; auto. right. lia. }
+    assert (Hown : forall p e, nth_error t p = Some e -> e_duid e = rc_duid c m -> live (of_t f) e = true -> e_ip e = desired).
+    { intros p e Hn Hdd Hl. apply (bound_is_own (r_t r) (rc_duid c m) t desired p e U0 Hb Hn Hdd). eapply live_mono; eauto. }
     destruct Hres as [Hno1 Hres]. repeat split; auto.
     + fold o. rewrite Hk. discriminate.
     + eapply round_events_lease; eauto.
@@ -412,7 +431,7 @@ Lemma accepted_round_c02 c now t r t' : cfg_wire_ok c -> cfg_srv_ok c -> wf_roun
 Proof.
   intros Hcw Hcs Hw Hinv Hnow Ha.
   destruct (accepted_round_WInv c now t r t' Hinv Hnow Ha) as [[_ S'] _].
-  destruct (accepted_round_event c now t r t' Hcw Hw Hinv Hnow Ha) as [->|(src & dst & m & f & ty & y & Hdc & Hk & Ho & Ht & Hty & -> & _ & Hres)]; [split; reflexivity|].
+  destruct (accepted_round_event c now t r t' Hcw Hw Hinv Hnow Ha) as [->|(src & dst & m & f & ty & y & Hdc & Hk & Ho & Ht & Hty & -> & _ & Hres & _)]; [split; reflexivity|].
   cbn [forallb]. rewrite !andb_true_r.
   apply (addr_allowed_c02 c (d_chaddr m) y); [reflexivity|reflexivity|].
   eapply entry_addr_allowed; eauto; [eapply not_ignored_mac; eauto|].
@@ -457,7 +476,7 @@ Proof.
   assert (Hbound : forall ts, (r_t r <= ts)%Z -> bound_ip ts (rc_duid c m) t = Some s).
   { intros ts Hts. rewrite Hd. eapply (proj1 (perm_bound c ts t _ _ _ S Hpair)). Unshelve. eapply unique_live_mono; [|exact U]. lia. }
   destruct (accepted_round_cases c t r t' Ha) as [Hcase _].
-  destruct Hcase as [Hdc' ? ?|? ? ? Hdc' Hk' ? ?|? ? ? Hdc' Hk' Hdrop ? ?|? ? ? ts Hdc' o' Hk' ? Hs' Hts Hov ? ?|src' dst' m' ts y f Hdc' o' tl Hk' Hd' Hs' Ho Hy Hfr Ht Hts Hov Hh
+  destruct Hcase as [Hdc' ? ?|? ? ? Hdc' Hk' ? ?|? ? ? Hdc' Hk' Hdrop ? ?|? ? ? ts Hdc' o' Hk' ? Hs' Hts Hov ? ?|src' dst' m' ts y f Hdc' o' tl Hk' Hd' Hs' Ho Hy Hfr Ht Hdl Hts Hle Hov Hh
                     |? ? ? Hdc' o' Hk' ? ? ?|? ? ? ? ? Hdc' o' Hk' ? ? ? ? ? ? ?
                     |? ? ? ? ? Hdc' o' Hk' ? ? ? ? ? ? ? ?|? ? ? ? ? ? Hdc' o' Hk' ? ? ? ? ? ? ? ? ?];
     rewrite Hdc in Hdc'; try discriminate Hdc'; injection Hdc' as <- <- <-; try (exfalso; match type of Hk' with _ = ?K => assert (Hx' : KDiscover = K) by (rewrite <- Hkind; exact Hk') end; discriminate Hx').
@@ -538,9 +557,9 @@ Proof.
   all: destruct Hinv as [U S]; destruct (accepted_round_cases c t r t' Ha) as [Hcase _].
   all: assert (Hend : forall f, r_outs r = [f] -> (r_t r <= of_t f)%Z -> round_end r = of_t f) by (intros f Ho Ht; unfold round_end; rewrite Ho; cbn; lia).
   all: assert (Hsil : r_outs r = [] -> round_end r = r_t r) by (intros Ho; unfold round_end; rewrite Ho; reflexivity).
-  all: destruct Hcase as [? Ho ?|? ? ? ? ? Ho ?|? ? ? ? ? ? Ho ?|? ? ? ? ? o ? ? ? ? ? Ho ?|src dst m ts y f Hdc o tl Hk Hd Hs Ho Hy Hfr Ht Hts Hov Hh
-                    |? ? ? ? o ? ? Ho ?|src dst m desired f Hdc o Hk Hcl Hmr Hb Ho Hfr Ht ?
-                    |src dst m desired f Hdc o Hk Hcl Hmr Hb Hh Hp Ho Hfr Ht|src dst m desired f t1 Hdc o Hk Hcl Hmr Hb Hh Hp Ho Hfr Ht Hu];
+  all: destruct Hcase as [? Ho ?|? ? ? ? ? Ho ?|? ? ? ? ? ? Ho ?|? ? ? ? ? o ? ? ? ? ? Ho ?|src dst m ts y f Hdc o tl Hk Hd Hs Ho Hy Hfr Ht Hdl Hts Hle Hov Hh
+                    |? ? ? ? o ? ? Ho ?|src dst m desired f Hdc o Hk Hcl Hmr Hb Ho Hfr Ht Hdl ?
+                    |src dst m desired f Hdc o Hk Hcl Hmr Hb Hh Hp Ho Hfr Ht Hdl|src dst m desired f t1 Hdc o Hk Hcl Hmr Hb Hh Hp Ho Hfr Ht Hdl Hu];
     subst; try (rewrite (Hsil Ho); eapply upper_mono; [|exact Hup]; lia); try apply grows_refl.
   - (* OFFER: upper *)
     rewrite (Hend f Ho Ht). pose proof (hold_to_uip _ _ _ _ _ _ _ Hh) as Eu.
